@@ -2,5 +2,5 @@
 # usage: tools/reseed.sh <ID e.g. C08-7> [CNN ...]  -- re-runs a stored seeded change (seeded/<ID>/patch.diff) against the named checks (default: its own property)
 id=$1; shift; props="$@"; [ -z "$props" ] && props=${id%%-*}
 R=$(cd "$(dirname "$0")/.." && pwd)
-T=$(mktemp -d /tmp/reseed-XXXXXX); mkdir $T/SEED; cp $R/seeded/$id/patch.diff $T/SEED/
+T=$(mktemp -d /tmp/reseed-XXXXXX); mkdir $T/SEED; if [ -f $R/seeded/$id/patch_rebased_on_dce82ce.diff ] && ! git -C /repo apply --check $R/seeded/$id/patch.diff 2>/dev/null; then cp $R/seeded/$id/patch_rebased_on_dce82ce.diff $T/SEED/patch.diff; else cp $R/seeded/$id/patch.diff $T/SEED/; fi
 $R/tools/seedcheck.sh $T $props; rm -rf $T
